@@ -7,12 +7,15 @@ if "C04" == "C08":
     HARNESSES["required"] = cp.REQUIRED_HARNESS
 HARNESSES["wrongtype"] = cc.WRONGTYPE_HARNESS
 HARNESSES["constant"] = cp.CONSTANT_HARNESS
+HARNESSES["badselector"] = cp.BADSELECTOR_HARNESS
 STUBS = cc.STUBS
 
 
 def configs(tier, seed):
     return cc.configs_for("C04", tier, seed) + cp.configs_for("C04", tier, seed) + cc.wrongtype_configs() + \
-        [dict(c, prop="C04") for c in cp.configs_for("C08", tier, seed) if c["harness"] == "constant"]
+        [dict(c, prop="C04") for c in cp.configs_for("C08", tier, seed) if c["harness"] == "constant"] + \
+        [{"id": f"badselector/{n}", "harness": "badselector", "what": "request", "name": n,
+          "prop": "C04", "build": {"what": "request", "name": n}} for n in cp.BAD_SELECTORS]
 
 
 BOUNDS = {"atoms": "bit length in {1,2,7,8,9,12,15,16,17,24,31,32,33,63,64} x bit position 0..7 x "
